@@ -187,6 +187,55 @@ func c04Valid(r *rand.Rand) string {
 	return g.stmt([]pty{pInt, pStr, pList, pBool}[r.Intn(4)], 2+r.Intn(4), []pbind{{"a", pInt}, {"b", pInt}})
 }
 
+// constant expressions whose evaluation fails, panics or does not end (folded while parsing)
+var c04ConstFaults = []string{"1/0", "1%0", "[1][5]", "[1][0-1]", "(f->f(f))(f->f(f))", "(x->x(x))(x->x(x))", "throw(\"x\")", "{a:1}.b", "[1].first().x", "int(1e30)",
+	"\"a\"<1", "[1,2].map(e->e/0).eval()", "[].first()", "[1,2].reduce((p,q)->p/0)", "numbers(3).map(e->1/0).size()", "min()", "list(0-1)", "[3,1].order(e->[1]).eval()",
+	"sprintf(\"%d\")", "{f:x->this.f(x)}.f(1)", "\"abc\".cut(5,9)", "[1,2].combineN(0,w->w).eval()", "[1]+1", "!1", "0-\"a\"", "1(2)", "\"s\"(1)", "[1](2)", "{k:1}(1)",
+	"sqr(1,2,3)", "sin()", "pi(1)", "true(1)", "1.5.x", "2^\"a\"", "1~2", "[1]~[[1]]", "{a:1}={a:\"b\"}", "nosuch(1)", "nosuch", "a.nosuch()", "1.nosuch(2)"}
+
+var c04FaultContexts = []string{"@", "let q=@; 1", "let q=@; q", "func g(n) @; 1", "func g(n) n+@; g(1)", "func g(n) @; g(1)", "[@]", "{k:@}", "(y->@)", "(y->@)(1)", "if @ then 1 else 2",
+	"if true then 1 else @", "try @ catch 1", "let q=try @ catch 2; q", "switch @ case 1: 1 default 2", "switch 1 case 1: @ default 2", "a+@", "[1,2].map(e->@)", "let h=(y->@); h(1)",
+	"let q=[@]; let r={k:@}; 1", "func g(n) let z=@; z; 1", "let q=(let z=@; z); q", "sin(@)", "sqr(@)", "a(@)", "@(@)", "@.x", "@[0]", "let q=1; let q=@; q"}
+
+// c04CalleeSoup: syntactically plausible programs whose callee, receiver or argument list the generator
+// cannot compile: an atom followed by postfix forms
+func c04CalleeSoup(r *rand.Rand) string {
+	atoms := []string{"1", "1.5", "\"s\"", "[1]", "[]", "{k:a}", "{k:1}", "{}", "a", "b", "nosuch", "sin", "sqr", "sqrt", "abs", "min", "list", "string", "throw", "sprintf", "pi", "true", "false",
+		"(x->x)", "((x,y)->x)", "(x->y->x)", "(a)", "(1)", "-a", "!a", "if a then sin else sqr", "try a catch 1", "e", "this", "let z=1; z"}
+	pick := func(l []string) string { return l[r.Intn(len(l))] }
+	var b strings.Builder
+	b.WriteString(pick(atoms))
+	for k := 0; k < 1+r.Intn(3); k++ {
+		switch r.Intn(5) {
+		case 0, 1:
+			n := r.Intn(4)
+			b.WriteString("(")
+			for i := 0; i < n; i++ {
+				if i > 0 {
+					b.WriteString(",")
+				}
+				b.WriteString(pick(atoms))
+			}
+			b.WriteString(")")
+		case 2:
+			b.WriteString("[" + pick(atoms) + "]")
+		case 3:
+			b.WriteString("." + pick([]string{"x", "k", "size", "map", "nosuch", "sin"}))
+		default:
+			n := r.Intn(3)
+			b.WriteString("." + pick([]string{"map", "size", "nosuch", "k", "string", "reduce"}) + "(")
+			for i := 0; i < n; i++ {
+				if i > 0 {
+					b.WriteString(",")
+				}
+				b.WriteString(pick(atoms))
+			}
+			b.WriteString(")")
+		}
+	}
+	return b.String()
+}
+
 func c04Mutate(r *rand.Rand, s string) string {
 	b := []byte(s)
 	if len(b) == 0 {
@@ -226,7 +275,7 @@ func c04Mutate(r *rand.Rand, s string) string {
 }
 
 func runC04(c *Ctx) {
-	c.rule = "byte strings up to 64 KiB: random bytes, token soups over the language alphabet (incl. comment openers, quotes, aliases, NUL, invalid UTF-8), mutations (delete/insert/duplicate/swap/truncate/random byte) of generated valid programs, unterminated strings/comments/quoted identifiers at end of input, deep nesting up to 30000, x 9 configurations (value generator with and without comments and in map mode, the bool and the comfort-mode float example, four generic parsers incl. a unary operator that is the highest binary operator, prefix-overlapping multi-character operators, text operators); each input runs in a watchdog worker (2 s + 1 ms/byte); a panic, timeout or dead worker is a violation; non-trivial = distinct (configuration, input) with at least 3 bytes"
+	c.rule = "byte strings up to 64 KiB: random bytes, token soups over the language alphabet (incl. comment openers, quotes, aliases, NUL, invalid UTF-8), mutations (delete/insert/duplicate/swap/truncate/random byte) of generated valid programs, unterminated strings/comments/quoted identifiers at end of input, deep nesting up to 30000, well-formed programs whose constant sub-expressions fail while being folded inside Parse (42 fault sources x 29 contexts) and programs whose callee/receiver/arguments the generator cannot compile (Generate error paths), x 9 configurations (value generator with and without comments and in map mode, the bool and the comfort-mode float example, four generic parsers incl. a unary operator that is the highest binary operator, prefix-overlapping multi-character operators, text operators); each input runs in a watchdog worker (2 s + 1 ms/byte); a panic, timeout or dead worker is a violation; non-trivial = distinct (configuration, input) with at least 3 bytes"
 	c.assume = append(c.assume, "wall-clock linearity, Go stack growth on deep nesting and goroutine scheduling are runtime behaviour observed by the watchdog")
 	n := c.Pick(24000, 600000)
 	big := c.Pick(60, 800)
@@ -244,6 +293,28 @@ func runC04(c *Ctx) {
 		for _, s := range corpus {
 			cases = append(cases, &parseCase{id: itoa(len(cases)), cfg: ci, input: []byte(s), class: "corpus"})
 		}
+	}
+	// well-formed text whose trouble is semantic: constant sub-expressions whose folding fails while Parse runs
+	// (the optimizer is called from inside the parser for let values and func bodies), and callees/arguments
+	// the generator cannot compile (the error paths of Generate); every configuration sees these
+	for _, f := range c04ConstFaults {
+		for _, ctx := range c04FaultContexts {
+			src := strings.ReplaceAll(ctx, "@", f)
+			for ci := 0; ci < ncfg; ci++ {
+				cases = append(cases, &parseCase{id: itoa(len(cases)), cfg: ci, input: []byte(src), class: "const-fault"})
+			}
+		}
+	}
+	for i := 0; i < n/6; i++ {
+		src := c04CalleeSoup(c.rng)
+		if c.rng.Intn(3) == 0 {
+			src = strings.ReplaceAll(c04FaultContexts[c.rng.Intn(len(c04FaultContexts))], "@", src)
+		}
+		ci := c.rng.Intn(ncfg)
+		if i < 40*ncfg {
+			ci = i % ncfg
+		}
+		cases = append(cases, &parseCase{id: itoa(len(cases)), cfg: ci, input: []byte(src), class: "generate-error"})
 	}
 	for i := 0; i < n; i++ {
 		switch c.rng.Intn(8) {
